@@ -106,6 +106,14 @@ def read_scale(pio, scale_info, num_channels, dtype):
         vol[:, z0:z1, y0:y1, x0:x1] = chunk
         n += 1
         nbytes += chunk.nbytes
+    # a scale may list several chunk sizes: each is a complete chunking of the same voxels
+    for other in scale_info["chunk_sizes"][1:]:
+        for cc in chunk_grid(size, other):
+            x0, x1, y0, y1, z0, z1 = cc
+            chunk = pio.read_chunk(scale_info["key"], cc)
+            if not np.array_equal(chunk, vol[:, z0:z1, y0:y1, x0:x1]):
+                raise ScaleCodecMismatch(f"scale {scale_info['key']}: chunk {cc} of the chunking {other} holds other "
+                                         f"voxels than the chunking {cs}")
     return vol, n, nbytes
 
 
@@ -125,4 +133,16 @@ def count_chunk_files(base, key):
     n = 0
     for _root, _dirs, files in os.walk(os.path.join(base, key)):
         n += len(files)
+    return n
+
+
+def count_grid_files(base, key, size, chunk_size):
+    """Number of chunks of ONE chunking of a scale that exist as files (flat or per-axis
+    sub-directories, plain or .gz)."""
+    n = 0
+    for (x0, x1, y0, y1, z0, z1) in chunk_grid(size, chunk_size):
+        flat = os.path.join(base, key, f"{x0}-{x1}_{y0}-{y1}_{z0}-{z1}")
+        deep = os.path.join(base, key, f"{x0}-{x1}", f"{y0}-{y1}", f"{z0}-{z1}")
+        if any(os.path.isfile(p_ + sfx) for p_ in (flat, deep) for sfx in ("", ".gz")):
+            n += 1
     return n
